@@ -36,6 +36,7 @@ class C12(Prop):
                        expect_distinct=(24 if n == 1 else 11520))
             self.maps[n] = [m for m, _ in read_maps(pf)]
         self.big = []
+        self.yimg = {}
         nb = 60 if self.tier == "thorough" else 10
         for n in (3, 4):
             r = self.model("MC_RotSim", "MC_RotSim_n%d.cfg" % n, name="rotsim_n%d" % n, workers=1, simulate="num=%d" % nb,
@@ -43,6 +44,7 @@ class C12(Prop):
             for e in r.printed:
                 if e[0] == "S" and e[1] in (4, 8):
                     self.big.append((n, e[3]))
+                    self.yimg[tuple(map(tuple, e[3]))] = e[6]
 
     def scenarios(self):
         thorough = self.tier == "thorough"
@@ -89,6 +91,30 @@ class C12(Prop):
                 sub = rng.sample(range(n), L)
                 yield {"k": "fromstab", "n": n, "stabs": [rows[j][:-1] + [(rows[j][-1] + 2 * rng.randrange(2)) % 4] for j in sub],
                        "fmt": rng.choice(("plist", "strings", "strlist", "codes"))}
+            # lists drawn from the images of X_i, Z_i, Y_i: two operators of the same qubit anticommute (must be
+            # refused, also when every member anticommutes with an even number of the others), otherwise the
+            # list is commuting and independent
+            yi = self.yimg.get(tuple(map(tuple, m)))
+            if yi:
+                pool = [(q, w) for q in range(n) for w in (m[2 * q], m[2 * q + 1], yi[q])]
+                for t in range(10):
+                    L = rng.randrange(2, n + 1)
+                    if t % 3 == 0:
+                        q = rng.randrange(n)
+                        lst = [w for qq, w in pool if qq == q][:max(2, min(3, L))]      # 2 or 3 mutually anticommuting
+                        others = [w for qq, w in pool if qq != q]
+                        rng.shuffle(others)
+                        picked, seenq = [], set()
+                        for qq, w in [(qq2, w2) for qq2, w2 in pool if qq2 != q]:
+                            if qq not in seenq and len(lst) + len(picked) < max(L, len(lst)) and rng.random() < 0.5:
+                                picked.append(w)
+                                seenq.add(qq)
+                        lst = lst + picked
+                        rng.shuffle(lst)
+                    else:
+                        lst = [w for _q, w in rng.sample(pool, L)]
+                    lst = [w[:-1] + [(w[-1] + 2 * rng.randrange(2)) % 4] for w in lst]
+                    yield {"k": "fromstab", "n": n, "stabs": lst, "fmt": "plist"}
             if n == 3 and thorough:
                 yield {"k": "qutip", "rows": ins_to_state(m), "r": rng.randrange(n + 1), "pkg": "py"}
         for n in (1, 2, 3, 4, 5):
